@@ -23,7 +23,7 @@ structure Inv (s0 s : St) : Prop where
   snap : ∀ k, (s.th k).mode = .r → (s.th k).snap = s.mem
   quiet : ∀ k, (s.th k).mode = .r →
             ∃ q, Reach s0 q ∧ (∀ j, (q.th j).mode ≠ .w) ∧ (s.th k).snap = q.mem
-  seen : ∀ k e, e ∈ (s.th k).seen → e.2.1 = e.2.2
+  seen : ∀ k e, e ∈ (s.th k).seen → e.1 = .r → e.2.2.1 = e.2.2.2
 
 /-- initial states: nobody holds the lock, nothing observed yet, every thread disciplined -/
 def Init (s : St) : Prop :=
@@ -150,13 +150,10 @@ theorem inv_step (s0 s s' : St) (i : Nat) (hr : Reach s0 s) (hi : Inv s0 s) (st 
       · simp [setTh, hki] at hk ⊢; exact hi.quiet k hk
     · intro k e he; by_cases hki : k = i
       · subst hki
-        simp only [setTh, Thread.didRead, if_true] at he
-        by_cases hm : (s.th k).mode = .r
-        · simp [hm] at he
-          rcases he with rfl | he
-          · simp; rw [hi.snap k hm]
-          · exact hi.seen k e he
-        · simp [hm] at he; exact hi.seen k e he
+        simp only [setTh, Thread.didRead, if_true, List.mem_cons] at he
+        rcases he with rfl | he
+        · intro hm; simp at hm ⊢; rw [hi.snap k hm]
+        · exact hi.seen k e he
       · simp [setTh, hki] at he; exact hi.seen k e he
   | wr f v p h =>
     have hmw : (s.th i).mode = .w := by
@@ -217,8 +214,8 @@ theorem disciplined_race_free (s0 s : St) (h0 : Init s0) (hr : Reach s0 s) : ¬ 
 /-- **one consistent configuration per request**: every value a reader section has read equals
     the value the cell had when the section was entered … -/
 theorem reads_consistent (s0 s : St) (h0 : Init s0) (hr : Reach s0 s) (k : Nat)
-    (f : Field) (v v0 : Nat) (h : (f, v, v0) ∈ (s.th k).seen) : v = v0 :=
-  (inv_reach s0 s h0 hr).seen k (f, v, v0) h
+    (f : Field) (v v0 : Nat) (h : (Mode.r, f, v, v0) ∈ (s.th k).seen) : v = v0 :=
+  (inv_reach s0 s h0 hr).seen k (Mode.r, f, v, v0) h rfl
 
 /-- … and that entry configuration is the memory of a reachable instant at which **no writer
     section was open**: the configuration before or after a concurrent administrative change,
@@ -246,6 +243,36 @@ example : disc .n [.acqW, .wr .provisioners 1, .wr .admins 1, .relW] = true := b
 example : disc .n [.acqR, .rd .provisioners, .rd .admins, .relR] = true := by decide
 /-- and a reader without the lock is not -/
 example : disc .n [.rd .policyEngine] = false := by decide
+
+/-! ## The lock is load-bearing -/
+
+/-- a writer replacing two cells inside a write section, and a reader that takes **no** lock -/
+def wProg : List Step := [.acqW, .wr .provisioners 1, .wr .admins 1, .relW]
+def uProg : List Step := [.rd .provisioners, .rd .admins]
+
+def idle : Thread := ⟨[], .n, fun _ => 0, []⟩
+def w0 : St := ⟨fun _ => 0, fun k => if k = 0 then ⟨wProg, .n, fun _ => 0, []⟩ else if k = 1 then ⟨uProg, .n, fun _ => 0, []⟩ else idle⟩
+
+def w1 : St := ⟨w0.mem, setTh w0 0 ((w0.th 0).enter [.wr .provisioners 1, .wr .admins 1, .relW] .w w0.mem)⟩
+def w2 : St := ⟨fun g => if g = .provisioners then 1 else w1.mem g, setTh w1 0 ((w1.th 0).didWrite [.wr .admins 1, .relW])⟩
+def w3 : St := ⟨w2.mem, setTh w2 1 ((w2.th 1).didRead [.rd .admins] .provisioners (w2.mem .provisioners))⟩
+def w4 : St := ⟨w3.mem, setTh w3 1 ((w3.th 1).didRead [] .admins (w3.mem .admins))⟩
+
+/-- **the lock is load-bearing**: without it there is a schedule in which one request reads the
+    provisioners *after* and the administrators *before* the same administrative change -/
+theorem undisciplined_witness :
+    ∃ s, Reach w0 s ∧ (∃ a b, (Mode.n, Field.provisioners, 1, a) ∈ (s.th 1).seen ∧
+                               (Mode.n, Field.admins, 0, b) ∈ (s.th 1).seen) := by
+  have s1 : StepRel w0 0 w1 := StepRel.acqW w0 0 _ rfl rfl
+    (by intro k; simp only [w0]; split; · rfl
+        · split <;> rfl)
+  have s2 : StepRel w1 0 w2 := StepRel.wr w1 0 .provisioners 1 _ rfl
+  have s3 : StepRel w2 1 w3 := StepRel.rd w2 1 .provisioners _ rfl
+  have s4 : StepRel w3 1 w4 := StepRel.rd w3 1 .admins _ rfl
+  exact ⟨w4, .step _ _ 1 (.step _ _ 1 (.step _ _ 0 (.step _ _ 0 .init s1) s2) s3) s4, 0, 0, by decide, by decide⟩
+
+/-- and that reader is indeed not disciplined, while the writer is -/
+example : disc .n uProg = false ∧ disc .n wProg = true := by decide
 
 /-! ## The regenerated table -/
 
